@@ -160,6 +160,36 @@ def r05_1(run):
                slot='flush-on-enter:%s/%s' % (r['state'], r['input']),
                message='(%s, %s) -> relaying: %s; application bytes that arrive in the same segment as the success '
                        'reply are withheld until more data arrives' % (r['state'], r['input'], why))
+    # (c2) the same on entering sent_request: bytes that arrived in the segment that completed the method reply are
+    # (the start of) the request reply and must be offered to its parser without waiting for further input
+    for r in t.rows_entering('sent_request'):
+        nxt = t.row('sent_request', 'got_data')
+        ok = False
+        why = 'nothing re-dispatches the buffered remainder'
+        redis = [o for o in r['outputs'] if any(is_call_to(a, 'self.got_data') or (dotted(getattr(a, 'func', None)) or '').startswith('self._parse_')
+                                               for a in walk_unit(t.outputs[o]) if isinstance(a, ast.Call))]
+        if redis and nxt is not None and nxt['outputs']:
+            ok = True
+        if not ok:
+            found, good = False, True
+            for pname, u in ci.methods.items():
+                if not pname.startswith('_parse_'):
+                    continue
+                gp = cfg_of(u)
+                for m, c in self_calls(u):
+                    if m != r['input']:
+                        continue
+                    found = True
+                    for n in gp.nodes_containing(c):
+                        esc = gp.escapes(n, lambda x: any(is_call_to(a, 'self.got_data') for a in node_asts(x)) or
+                                         (x.kind == 'test' and mentions(x.ast, 'self._data')), exits=gp.normal_exits())
+                        if esc or nxt is None or not nxt['outputs']:
+                            good = False
+            ok = found and good
+        run.ob('R05.1', ci.file, r['node'], 'bytes buffered behind the method reply are offered to the request-reply parser at once', ok,
+               slot='reparse-on-enter:%s/%s' % (r['state'], r['input']),
+               message='(%s, %s) -> sent_request: %s; a request reply that arrives in the same segment as the method reply is not '
+                       'parsed until more input arrives (the attempt hangs)' % (r['state'], r['input'], why))
     # (d) abort/done deliver nothing and create nothing
     for r in t.rows:
         if r['state'] in ('abort', 'done'):
@@ -237,7 +267,22 @@ def r05_2(run):
                         run.ob('R05.2', u, c, 'machine input raised after the message is consumed', g.dominates(cn, n),
                                slot='input-after-consume:%s:%s' % (name, m),
                                message='%s calls %s before removing the reply from the buffer (the reply bytes would be relayed as data)' % (name, m))
-    run.floor('R05.2', 'buffer consumption sites', k, 4)
+    # the only thing a parser does to the buffer is to cut a parsed message off its front: anything else (clearing it,
+    # keeping a middle part) loses bytes that arrived in the same segment as the message
+    kw_ = 0
+    for name, u in ci.methods.items():
+        if not name.startswith('_parse_'):
+            continue
+        for n in walk_unit(u):
+            if isinstance(n, (ast.Assign, ast.AugAssign)) and 'self._data' in assigned_targets(n):
+                kw_ += 1
+                v = n.value
+                okc = isinstance(n, ast.Assign) and isinstance(v, ast.Subscript) and dotted(v.value) == 'self._data' and isinstance(v.slice, ast.Slice) \
+                    and v.slice.lower is not None and v.slice.upper is None and v.slice.step is None
+                run.ob('R05.2', u, n, 'a parser only removes the parsed message from the front of the buffer', okc, slot='buffer-write:%s' % name,
+                       message='%s sets the buffer to %s: bytes that arrived behind the parsed message in the same segment are lost' % (name, src(v)[:40]))
+    run.floor('R05.2', 'buffer writes in the parsers', kw_, 3)
+    run.floor('R05.2', 'buffer consumption sites', k, 3)
     # A buffer-length test may only separate "not all here yet: wait" from "go on": how much is buffered depends
     # on how the peer's bytes were cut into segments (and on application bytes following the reply), so a test
     # whose short leg also acts makes the outcome depend on the segmentation.
@@ -536,6 +581,8 @@ RULES = [
 from ..selftest import M  # noqa: E402
 F = 'txtorcon/socks.py'
 MUTANTS = [
+    M('no-reparse-after-method-reply', F, "                if self._data:\n                    self.got_data()\n            else:", "            else:", ['R05.1']),
+    M('version-reply-clears-buffer', F, "            self._data = self._data[2:]\n", "            self._data = b''\n", ['R05.2']),
     M('reply-length-cap', F, "        if len(self._data) < 8:\n            return\n        msg = self._data[:4]", "        if len(self._data) < 8:\n            return\n        if len(self._data) > 262:\n            self.reply_error(SocksError('too long'))\n            return\n        msg = self._data[:4]", ['R05.2']),
     M('relay-in-sent_request', F, "    sent_request.upon(\n        got_data,\n        enter=sent_request,\n        outputs=[_parse_request_reply],\n    )", "    sent_request.upon(\n        got_data,\n        enter=sent_request,\n        outputs=[_parse_request_reply, _relay_data],\n    )", ['R05.1']),
     M('make-connection-on-error', F, "    sent_request.upon(\n        reply_error,\n        enter=abort,\n        outputs=[_disconnect],\n    )", "    sent_request.upon(\n        reply_error,\n        enter=relaying,\n        outputs=[_make_connection],\n    )", ['R05.1']),
